@@ -688,3 +688,62 @@ def run_addreffail(prog, ctx=None):
                    "" if bad is None else "after %s->addref() succeeded `%s` refuses the call without giving the reference back (no unref(%s), no store of %s on that path): the count stays one above the number of handles" % (
                        xn, norm(show(bad, f)), xn, xn))
     return res
+
+
+def run_ownedref(prog, ctx=None):
+    """OWNEDREF: a reference that was stored into a member of an object (`X->member = m`) travels with that object: the
+    function does not release it again through the local (`m->_vptr->unref(m)`) on a path behind the store, unless the
+    member or the local was given another value in between.  Releasing it there leaves X with a dangling member, and when X
+    is torn down afterwards (its destroy function releases its members) the referent is released twice."""
+    res = Result("OWNEDREF")
+    from .rules_path import funcs_of
+    files = set(ctx.get("files", [])) if ctx else None
+    for f in funcs_of(prog, files):
+        stores = []      # (block, idx, var id, var name, member text, node)
+        unrefs = []      # (block, idx, var id, node)
+        kills = []       # (block, idx, var id or member text)
+        for b, i, e in f.elements():
+            for n in walk_own(e):
+                if n.get("k") == "bin" and n.get("op") == "=":
+                    l = strip(n["a"], lvalue_to_rvalue=False)
+                    r = strip(n["b"], all_casts=True)
+                    if l.get("k") == "mem" and l.get("arrow") and r.get("k") == "ref" and r["d"].get("dk") == "local" and f.T(r.get("t")).get("k") == "ptr":
+                        stores.append((b.id, i, r["d"]["id"], r["d"]["n"], norm(show(l, f)), n))
+                    if l.get("k") == "ref" and "id" in l["d"]:
+                        kills.append((b.id, i, l["d"]["id"]))
+                    if l.get("k") == "mem":
+                        kills.append((b.id, i, norm(show(l, f))))
+                if n.get("k") == "call" and n.get("callee") is not None and n.get("args"):
+                    ce = strip(n["callee"], all_casts=True)
+                    if ce.get("k") == "mem" and ce.get("f") == "unref":
+                        a = strip(n["args"][0], all_casts=True)
+                        if a.get("k") == "ref" and "id" in a["d"]:
+                            unrefs.append((b.id, i, a["d"]["id"], n))
+        if not stores or not unrefs:
+            continue
+        for sb, si, vid, vn, mtxt, sn in stores:
+            bad = None
+            for ub, ui, uvid, un in unrefs:
+                if uvid != vid:
+                    continue
+                after = (ub == sb and ui > si) or (ub != sb and ub in f.reachable_from(sb))
+                if not after:
+                    continue
+                # a kill of the local or of the member on every path between?  (approximation: a kill in a block that
+                # dominates the unref and is reachable from the store)
+                dom = f.dominators()
+                killed = False
+                for kb, ki, what in kills:
+                    if what not in (vid, mtxt):
+                        continue
+                    if (kb == sb and ki <= si) or (kb == ub and ki >= ui):
+                        continue
+                    between = ((kb == sb and ki > si) or (kb != sb and kb in f.reachable_from(sb))) and ((kb == ub and ki < ui) or (kb != ub and kb in dom[ub]))
+                    if between:
+                        killed = True
+                if not killed:
+                    bad = un
+            res.ob("%s:%s = %s" % (f.qn, mtxt, vn), bad is None, f, (bad.get("l") if bad else sn.get("l")) or f.line,
+                   "" if bad is None else "`%s` hands the reference held in %s to the object, and `%s` releases it through the local afterwards: the member dangles, and a teardown of the object releases the referent a second time" % (
+                       norm(show(sn, f)), vn, norm(show(bad, f))[:60]))
+    return res
